@@ -4,7 +4,8 @@ import Account.Init
 
 Code modelled (as read in /repo):
 
-* `single_set.rs` 227-299 `normalize_rent` / `refund_rent` / `receive_rent`: read `lamports` and
+* `single_set.rs` 227-299 `normalize_rent` / `refund_rent` / `receive_rent` (refund as repaired by 519a31c: below the minimum,
+  zero lamports → `Ok` and nothing changes, otherwise `InsufficientFunds`): read `lamports` and
   `data_len`, `rent = minimum_balance(data_len)`; top-ups go through `CanFundRent::fund_rent`
   (a System `Transfer` CPI, signed with the funder's seeds when it has some); excess is moved with
   direct lamport writes: `*account.lamports -= n` first, then `funder/recipient.add_lamports(n)`
@@ -39,7 +40,7 @@ def refundRent (env : Env) (recipient : Key) (tgt : Key) (s : St) : Res Unit × 
   let rent := env.rentMin (s.w tgt).data.length
   if rent = lam then (.ok (), s)
   else if rent > lam then
-    (if lam > 0 then (.ok (), s) else (.err .insufficientFunds, s))
+    (if lam = 0 then (.ok (), s) else (.err .insufficientFunds, s))
   else
     let n := lam - rent
     addLamports recipient n { s with w := setLamports s.w tgt (lam - n) }
